@@ -121,8 +121,11 @@ class EvalContext(metaclass=NamespaceableMeta):
     def get_node(self, *path, **kwargs):
         path = NodePath.get_list_path(*path)
         if str(path) in self._eval_cache:
-            if self._require_all_safe and str(path) in self._eval_cache_unsafe:
-                raise errors.UnsafeError(f'Note: the current context requires all evaluated nodes to be safe - see chained exceptions for more information', self._eval_cache_unsafe[str(path)], str(path))
+            if self._require_all_safe:
+                # the cached value of a container also holds what its descendants evaluated to
+                for unsafe_path, unsafe_node in self._eval_cache_unsafe.items():
+                    if not path or unsafe_path == str(path) or unsafe_path.startswith(str(path) + '.') or unsafe_path.startswith(str(path) + '['):
+                        raise errors.UnsafeError(f'Note: the current context requires all evaluated nodes to be safe - see chained exceptions for more information', unsafe_node, unsafe_path)
             return self._eval_cache[str(path)]
         return self.cfg.ayns.get_node(path, **kwargs)
 
